@@ -286,6 +286,11 @@ def oracle_c02(case):
                     k = "n_" + tgt
                     if k in st["vars"] and isinstance(st["vars"][k], int) and st["vars"][k] != prev["vars"].get(k, 0) + 1 and not case.get("cycles"):
                         out.append(fail(i, f"choose({idx}) did not enter its target {tgt} exactly once"))
+        # a choice reached while rendering (inside @if / @for) is offered or filtered — never handed out as a render directive
+        if name in ("init", "choose", "goto") and "out" in resp and resp["out"]:
+            for d_ in resp["out"].get("rdirs", []):
+                if d_.get("type") == "choice":
+                    out.append(fail(i, f"a choice written inside a block ({d_.get('target')}) was returned among the render directives instead of being offered"))
         # the output of a navigation names the passage the game is in
         if name in ("init", "choose", "goto") and "out" in resp and st.get("out") and resp["out"]["pid"] != st["cur"]:
             out.append(fail(i, f"{name} returned an output for passage {resp['out']['pid']} but the game is in {st['cur']}"))
@@ -665,9 +670,10 @@ def oracle_c10(case):
                             out.append(fail(i, f"join block {k} ran although another choice was taken"))
                 if exp_sec is not None:
                     exp_sec += 1
-                    # exactly the next section's choices are offered (no block choices, no other section's)
+                    # the next section's choices are offered, and choices written inside @if/@for blocks of the section just
+                    # shown; no other section's
                     for c in st["out"]["choices"]:
-                        if c["section"] != exp_sec or c["block"]:
+                        if c["section"] != exp_sec and not c["block"]:
                             out.append(fail(i, f"after a join choice a choice of section {c['section']} (block={c['block']}) is offered in section {exp_sec}"))
                             break
                     if st["join"].get(pid, 0) != exp_sec:
